@@ -276,9 +276,9 @@ func trakString(t *mp4.TrakBox) string {
 	if int(stsd.SampleCount) != len(stsd.Children) {
 		es += "!samplecount"
 	}
-	return fmt.Sprintf("T{%d,%d,%d,%d,%d,%d,%s,%s,%s,%s,%s,%s}", t.Tkhd.TrackID, t.Tkhd.Volume, t.Tkhd.Width, t.Tkhd.Height,
+	return fmt.Sprintf("T{%d,%d,%d,%d,%d,%d,%s,%s,%s,%s,%s,%s,%s}", t.Tkhd.TrackID, t.Tkhd.Volume, t.Tkhd.Width, t.Tkhd.Height,
 		t.Mdia.Mdhd.Timescale, t.Mdia.Mdhd.Language, hs(t.Mdia.Hdlr.HandlerType), hs(t.Mdia.Hdlr.Name), elng,
-		strings.Join(mc, "/"), mh, es)
+		strings.Join(mc, "/"), mh, es, hs(shape(t)))
 }
 
 // stateString is the projection of the implementation state compared with the model.
